@@ -244,3 +244,55 @@ def _c13(prop, tier):
 
 
 TABLE["C13"] = dict(run=_c13, replay=lambda p, path: smallfam.replay(p, path, driver="pckext", trace_module="PckExt_Trace", trace_consts=PCKEXT_TRACE_CONSTS))
+
+# ------------------------------------------------------------------------------------------
+import re as _re  # noqa: E402
+
+
+def _wire_cfg(tier):
+    b = 2
+    return ("CONSTANTS\n  AuthLens = {0, 2}\n  ChainLen = 7\n  ExtraLens = {0, 3}\n  Budget = %d\n"
+            "SPECIFICATION Spec\nINVARIANTS TypeOK AcceptIffLayout MachineIsFunction ExportCase\nCHECK_DEADLOCK FALSE\n" % b)
+
+
+WIRE_TRACE_CONSTS = "  AuthLens = {0}\n  ChainLen = 7\n  ExtraLens = {0}\n  Budget = 1\n"
+
+
+def _layout_crosscheck(binary):
+    """The layout table of spec/QuoteWire.tla and the harness's own table must be the same table."""
+    wd = C.scratch("verif-layout-")
+    r = C.run_tlc("QuoteWire_MC", "CONSTANTS\n  AuthLens = {0}\n  ChainLen = 7\n  ExtraLens = {0}\n  Budget = 1\nSPECIFICATION Spec\nCHECK_DEADLOCK FALSE\n", workers=1, timeout=300)
+    m = _re.search(r'<<"LAYOUT", (".*")>>', r.out)
+    if not m:
+        raise C.Infra("layout table not printed by TLC")
+    spec_layout = _json.loads(_json.loads(m.group(1)))
+    out = _os.path.join(wd, "layout.ndjson")
+    cp = _os.path.join(wd, "none.jsonl")
+    open(cp, "w").close()
+    C.run_harness(binary, "layout", cp, out, _os.path.join(wd, "s.json"), "quick")
+    go_layout = _json.loads(open(out).readline())["layout"]
+    if spec_layout != go_layout:
+        raise C.Infra("layout table of spec/QuoteWire.tla differs from harness/gen/quote.go")
+    return len(spec_layout)
+
+
+def _key_wire(call, evs):
+    f = call.get("facts") or call["input"]["f"]
+    return "len=%s,ver=%s,kt=%s,tee=%s,sd=%s,ct=%s,cs=%s,auth=%s,pt=%s,ps=%s|a=%s,e=%s,chain=%s" % (
+        f["len"], f["version"], f["keyType"], f["teeType"], f["sd"], f["certType"], f["certSize"], f["auth"], f["pckType"], f["pckSize"],
+        call["input"]["a"], call["input"]["e"], call["input"]["chain"])
+
+
+def _c09(prop, tier):
+    binary = C.build_harness()
+    nfields = _layout_crosscheck(binary)
+    code, _, _ = smallfam.run(prop, tier, mc_module="QuoteWire_MC", mc_cfg=_wire_cfg(tier), driver="wire", trace_module="QuoteWire_Trace",
+                              trace_consts=WIRE_TRACE_CONSTS, key_fn=_key_wire, required_actions=("Guard", "Accept"),
+                              extra_cov={"layout_fields_crosschecked": nfields},
+                              assumptions=["the layout table is an independent transcription of Intel's v4 quote layout (bytes 8-11 of the header follow the repository's naming)",
+                                           "field contents are seeded random fillings, pairwise distinct with overwhelming probability",
+                                           "gen.Decode is the reference reader for field contents; acceptance is decided by the TLA+ parser machine"])
+    return code
+
+
+TABLE["C09"] = dict(run=_c09, replay=lambda p, path: smallfam.replay(p, path, driver="wire", trace_module="QuoteWire_Trace", trace_consts=WIRE_TRACE_CONSTS))
